@@ -170,8 +170,8 @@ def gen_lengths(ctx, rng):
         small = list(range(0, 401))
         pb = page_boundary_lengths()
         bl = boundary_lengths()
-        extra = rng.sample(pb, 60 * ctx.scale if 60 * ctx.scale < len(pb) else len(pb)) + \
-            rng.sample(bl, min(len(bl), 70 * ctx.scale)) + [MAXLEN, MAXLEN - 1, MAXLEN - 127, MAXLEN - 128]
+        extra = rng.sample(pb, min(len(pb), 50 * ctx.scale)) + \
+            rng.sample(bl, min(len(bl), 50 * ctx.scale)) + [MAXLEN, MAXLEN - 1, MAXLEN - 127, MAXLEN - 128]
     else:
         small = list(range(0, 2201))
         bl = boundary_lengths()
@@ -645,7 +645,7 @@ def gen_cases(ctx):
     for _ in range(ctx.budget(60, 400)):
         n = rng.choice([1, 2, 3, 9, 16, 100, 1000]) if rng.random() < 0.5 else rng.randrange(0, 3000)
         cases.append({"kind": "crc", "data": rand_bytes(rng, n).hex()})
-    for _ in range(ctx.budget(2500, 40000)):
+    for _ in range(ctx.budget(2000, 40000)):
         cases.append(gen_hex2int(rng))
     for _ in range(ctx.budget(800, 12000)):
         cases.append(gen_int2hex(rng))
@@ -655,9 +655,9 @@ def gen_cases(ctx):
                       "data": rng.randbytes(n).hex()})
     for _ in range(ctx.budget(350, 5000)):
         cases.append(gen_ihex(rng, ctx))
-    for _ in range(ctx.budget(120, 2200)):
+    for _ in range(ctx.budget(100, 2200)):
         cases.append(gen_session(rng, ctx))
-    for _ in range(ctx.budget(90, 1200)):
+    for _ in range(ctx.budget(80, 1200)):
         cases.append(gen_session_republish(rng, ctx))
     for _ in range(ctx.budget(5, 60)):
         cases.append(gen_session(rng, ctx, big=True))
